@@ -881,9 +881,10 @@ def run_op_case(pl):
                                        'op.domain'.format(aop.domain, aop.range)[:400])
         except Exception as e:  # noqa
             rec['problems'].append('adjoint domain/range unreadable: {!r}'.format(e))
-    # ROUND 4: the same two comparisons against the instance computed from the GENERATED
-    # adjSpec / derivSpec (driver op `cfgg`: Op.adjointBy / Op.derivativeBy)
-    rec['checks'] += [('cfgg' + ln[3:], i_, l_) for (ln, i_, l_) in rec['checks']]
+    # ROUND 5: the driver's `cfg` op computes the instance from the GENERATED adjSpec /
+    # derivSpec (Op.adjointBy / Op.derivativeBy); the hand-written twins Op.adjoint /
+    # Op.derivative are no longer in the stream (driver op `cfgh`, manual use only), so an edit
+    # of a return expression that keeps the property is re-proved and passes
     if lin_flag != int(linear):
         rec['problems'].append('is_linear = {} but the operator is {}'.format(
             lin_flag, 'linear' if linear else 'affine (constant padding with pad_const != 0)'))
@@ -960,7 +961,7 @@ def ops_stream(ctx, reps, report=True, ndn=False, ctor=False):
         for (line, inst, lin_flag) in r['checks']:
             ans = outs[kc]
             kc += 1
-            if line.startswith('cfgg '):
+            if line.startswith('cfg '):
                 ctx.hit('cfgg/{}/{}'.format(line.split('act=')[1].split()[0], r['desc']['kind']))
             if isinstance(inst, tuple):
                 neg, kind, m, p, c, rlin = inst
